@@ -142,6 +142,9 @@ mod utils;
 mod errors;
 mod execution;
 
+#[cfg(pricelevel_verif)]
+pub mod verif_sync;
+
 pub use errors::PriceLevelError;
 pub use execution::{MatchResult, Transaction};
 pub use orders::DEFAULT_RESERVE_REPLENISH_AMOUNT;
